@@ -105,8 +105,23 @@ func (n *BitcoinNode) handleVersion(ctx context.Context, header *wire.MessageHea
 	// 	return errors.Wrapf(ErrNotFullService, "0x%016x", uint64(msg.Services))
 	// }
 
-	n.handshakeChannel <- msg // trigger handshake action
-	return nil
+	return n.addHandshakeMessage(msg) // trigger handshake action
+}
+
+// addHandshakeMessage passes a version or verack message to the handshake thread. Nothing reads
+// the handshake channel after the handshake is complete, so it must not block on it or the
+// connection's read thread would never finish.
+func (n *BitcoinNode) addHandshakeMessage(msg wire.Message) error {
+	if n.HandshakeIsComplete() {
+		return nil // not needed after handshake
+	}
+
+	select {
+	case n.handshakeChannel <- msg:
+		return nil
+	default:
+		return errors.New("Too many handshake messages")
+	}
 }
 
 func (n *BitcoinNode) handleVerack(ctx context.Context, header *wire.MessageHeader,
@@ -117,8 +132,7 @@ func (n *BitcoinNode) handleVerack(ctx context.Context, header *wire.MessageHead
 		return errors.Wrap(err, "read message")
 	}
 
-	n.handshakeChannel <- msg // trigger handshake action
-	return nil
+	return n.addHandshakeMessage(msg) // trigger handshake action
 }
 
 func (n *BitcoinNode) handleProtoconf(ctx context.Context, header *wire.MessageHeader,
